@@ -1,7 +1,474 @@
 /-
   Helper lemmas for C09cost.
+  Part 1 (`*_fst`): the first component of every step-counting function is the original model function.
+  Part 2 (`*_cost`): potential argument. Every automaton state pays its steps with the bytes it consumes:
+    decodeIntC / decodeStrC : cost ≤ |inp| + 1, and on success cost ≤ bytes consumed (string: |value| + 2 ≤ cost);
+    decodeAnyC              : cost ≤ 2|inp| + 1, and on success cost + 1 ≤ 2 · (bytes consumed);
+    list / dictionary loops : cost ≤ 2|inp| + 2, and on success cost + 1 ≤ 2 · (bytes consumed);
+  the key-order comparison costs at most |new key| + 1, paid by the bytes of the new key (hence the factor 2).
+  "bytes consumed" is expressed through lengths (`cost + 1 + 2·|rest| ≤ 2·|inp|`), so no prefix facts are needed.
 -/
 import TB.Spec.CostSpec
 namespace TB.Cost
+open TB
+
+/-! ### Part 1: faithfulness -/
+
+theorem intDigitsC_fst (neg : Bool) : ∀ (inp : Bytes) (acc : Int) (pos : Nat),
+    (intDigitsC neg inp acc pos).1 = intDigits neg inp acc pos := by
+  intro inp
+  induction inp with
+  | nil => intro acc pos; simp [intDigitsC, intDigits]
+  | cons b rest ih =>
+    intro acc pos
+    simp only [intDigitsC, intDigits, apply_ite Prod.fst, ih]
+
+theorem decodeIntC_fst (inp : Bytes) (pos : Nat) : (decodeIntC inp pos).1 = decodeInt inp pos := by
+  rcases inp with _ | ⟨b, _ | ⟨b1, _ | ⟨b2, rest2⟩⟩⟩ <;>
+    simp only [decodeIntC, decodeInt, intFirst, intNonZero, apply_ite Prod.fst, intDigitsC_fst]
+
+theorem strDigitsC_fst : ∀ (inp : Bytes) (n pos : Nat),
+    (strDigitsC inp n pos).1 = strDigits inp n pos := by
+  intro inp
+  induction inp with
+  | nil => intro n pos; simp [strDigitsC, strDigits]
+  | cons b rest ih =>
+    intro n pos
+    simp only [strDigitsC, strDigits, apply_ite Prod.fst, ih]
+
+theorem decodeStrC_fst (inp : Bytes) (pos : Nat) : (decodeStrC inp pos).1 = decodeStr inp pos := by
+  rcases inp with _ | ⟨b, rest⟩ <;> 
+    simp only [decodeStrC, decodeStr, apply_ite Prod.fst, strDigitsC_fst]
+
+theorem decodeStrTokC_fst (inp : Bytes) (pos : Nat) :
+    (decodeStrTokC inp pos).1 = decodeStrTok inp pos := by
+  unfold decodeStrTokC decodeStrTok
+  rw [← decodeStrC_fst]
+  rcases decodeStrC inp pos with ⟨res, n⟩
+  rcases res with ⟨v, c, r⟩ | _ | _ <;> rfl
+
+
+theorem decodeAllC_fst : ∀ fuel : Nat,
+    (∀ inp pos, (decodeAnyC fuel inp pos).1 = decodeAny fuel inp pos) ∧
+    (∀ inp pos start acc, (decodeListLoopC fuel inp pos start acc).1 = decodeListLoop fuel inp pos start acc) ∧
+    (∀ inp pos start ks vs, (decodeDictLoopC fuel inp pos start ks vs).1 = decodeDictLoop fuel inp pos start ks vs) := by
+  intro fuel
+  induction fuel with
+  | zero =>
+    refine ⟨?_, ?_, ?_⟩ <;> intros <;> simp [decodeAnyC, decodeAny, decodeListLoopC, decodeListLoop,
+      decodeDictLoopC, decodeDictLoop]
+  | succ fuel ih =>
+    obtain ⟨ihA, ihL, ihD⟩ := ih
+    refine ⟨?_, ?_, ?_⟩
+    · intro inp pos
+      rcases inp with _ | ⟨b, rest⟩
+      · simp [decodeAnyC, decodeAny]
+      · simp only [decodeAnyC, decodeAny, ← decodeStrTokC_fst, ← decodeIntC_fst, ← ihL, ← ihD]
+        split
+        · rcases decodeStrTokC (b :: rest) pos with ⟨res, n⟩
+          rcases res with ⟨t, r⟩ | _ | _ <;> rfl
+        · split
+          · rcases decodeIntC (b :: rest) pos with ⟨res, n⟩
+            rcases res with ⟨v, c, r⟩ | _ | _ <;> rfl
+          · split
+            · rfl
+            · split <;> rfl
+    · intro inp pos start acc
+      rcases inp with _ | ⟨b, rest⟩
+      · simp [decodeListLoopC, decodeListLoop]
+      · simp only [decodeListLoopC, decodeListLoop, ← ihA]
+        split
+        · rcases decodeAnyC fuel (b :: rest) pos with ⟨res, n⟩
+          rcases res with ⟨t, r⟩ | _ | _
+          · simp only [ihL]
+          · rfl
+          · rfl
+        · split <;> rfl
+    · intro inp pos start ks vs
+      rcases inp with _ | ⟨b, rest⟩
+      · simp [decodeDictLoopC, decodeDictLoop]
+      · simp only [decodeDictLoopC, decodeDictLoop, ← decodeStrTokC_fst]
+        split
+        · rcases decodeStrTokC (b :: rest) pos with ⟨res, n⟩
+          rcases res with ⟨k, r⟩ | _ | _
+          · have key : ∀ (okOrder : Bool) (cmp : Nat),
+                (if okOrder = true then
+                  match r with
+                  | [] => ((Res.err : Res (Tok × Bytes)), n + cmp + 1)
+                  | b2 :: _ =>
+                    if isValueStart b2 = true then
+                      match decodeAnyC fuel r k.c with
+                      | (.ok (t, r2), m) =>
+                        ((decodeDictLoopC fuel r2 t.cont start (k :: ks) (t :: vs)).1,
+                          (decodeDictLoopC fuel r2 t.cont start (k :: ks) (t :: vs)).2 + n + cmp + m + 1)
+                      | (.err, m) => (.err, n + cmp + m + 1) | (.panic, m) => (.panic, n + cmp + m + 1)
+                    else (.err, n + cmp + 1)
+                else (.err, n + cmp + 1)).1 =
+                (if okOrder = true then
+                  match r with
+                  | [] => .err
+                  | b2 :: _ =>
+                    if isValueStart b2 = true then
+                      match decodeAny fuel r k.c with
+                      | .ok (t, r2) => decodeDictLoop fuel r2 t.cont start (k :: ks) (t :: vs)
+                      | .err => .err | .panic => .panic
+                    else .err
+                else .err) := by
+              intro okOrder cmp
+              cases okOrder
+              · rfl
+              · rw [if_pos rfl, if_pos rfl]
+                rcases r with _ | ⟨b2, r'⟩
+                · rfl
+                · simp only [← ihA]
+                  split
+                  · rcases decodeAnyC fuel (b2 :: r') k.c with ⟨res, m⟩
+                    rcases res with ⟨t, r2⟩ | _ | _
+                    · simp only [ihD]
+                    · rfl
+                    · rfl
+                  · rfl
+            exact key _ _
+          · rfl
+          · rfl
+        · split <;> rfl
+
+theorem decodeC_fst (inp : Bytes) : (decodeC inp).1 = decode inp := by
+  unfold decodeC decode
+  rw [← (decodeAllC_fst _).1]
+  rcases decodeAnyC (2 * inp.length + 2) inp 0 with ⟨res, n⟩
+  rcases res with ⟨t, _ | ⟨b, r⟩⟩ | _ | _ <;> rfl
+
+/-! ### Part 2: cost -/
+
+theorem intDigitsC_cost (neg : Bool) : ∀ (inp : Bytes) (acc : Int) (pos : Nat),
+    (intDigitsC neg inp acc pos).2 ≤ inp.length + 1 ∧
+    ∀ v c r, (intDigitsC neg inp acc pos).1 = .ok (v, c, r) →
+      (intDigitsC neg inp acc pos).2 + r.length ≤ inp.length ∧ 1 ≤ (intDigitsC neg inp acc pos).2 := by
+  intro inp
+  induction inp with
+  | nil => intro acc pos; simp [intDigitsC]
+  | cons b rest ih =>
+    intro acc pos
+    simp only [intDigitsC]
+    generalize (if neg = true then acc * 10 - ↑(digitVal b) else acc * 10 + ↑(digitVal b)) = a
+    split
+    · split
+      · simp
+      · split
+        · simp
+        · have h := ih a (pos + 1)
+          refine ⟨by simp only [List.length_cons]; omega, ?_⟩
+          intro v c r hr
+          have := h.2 v c r hr
+          simp only [List.length_cons]; omega
+    · split
+      · refine ⟨by simp, ?_⟩
+        intro v c r hr
+        simp only [Res.ok.injEq, Prod.mk.injEq] at hr
+        simp only [← hr.2.2, List.length_cons]; omega
+      · simp
+
+theorem intStop_len {v0 : Int} {inp : Bytes} {pos : Nat} {v : Int} {c : Nat} {r : Bytes}
+    (h : intStop v0 inp pos = .ok (v, c, r)) : r.length + 1 = inp.length := by
+  rcases inp with _ | ⟨b, rest⟩
+  · simp [intStop] at h
+  · simp only [intStop] at h
+    split at h
+    · simp only [Res.ok.injEq, Prod.mk.injEq] at h
+      simp [h.2.2]
+    · cases h
+
+theorem decodeIntC_cost (inp : Bytes) (pos : Nat) :
+    (decodeIntC inp pos).2 ≤ inp.length + 1 ∧
+    ∀ v c r, (decodeIntC inp pos).1 = .ok (v, c, r) →
+      (decodeIntC inp pos).2 + r.length ≤ inp.length ∧ 2 ≤ (decodeIntC inp pos).2 := by
+  rcases inp with _ | ⟨b, _ | ⟨b1, rest1⟩⟩
+  · simp [decodeIntC]
+  · simp only [decodeIntC]; split <;> simp
+  · simp only [decodeIntC]
+    split
+    · split
+      · have h := intDigitsC_cost false rest1 (↑(digitVal b1)) (pos + 2)
+        refine ⟨by simp only [List.length_cons]; omega, ?_⟩
+        intro v c r hr
+        have := h.2 v c r hr
+        simp only [List.length_cons]; omega
+      · split
+        · refine ⟨by simp, ?_⟩
+          intro v c r hr
+          have := intStop_len hr
+          simp only [List.length_cons]; omega
+        · split
+          · rcases rest1 with _ | ⟨b2, rest2⟩
+            · simp
+            · simp only []
+              split
+              · have h := intDigitsC_cost true rest2 (-↑(digitVal b2)) (pos + 3)
+                refine ⟨by simp only [List.length_cons]; omega, ?_⟩
+                intro v c r hr
+                have := h.2 v c r hr
+                simp only [List.length_cons]; omega
+              · simp
+          · simp
+    · simp
+
+
+theorem strChars_len {n : Nat} {inp : Bytes} {pos : Nat} {v : Bytes} {c : Nat} {r : Bytes}
+    (h : strChars n inp pos = .ok (v, c, r)) : n + r.length = inp.length ∧ v.length = n := by
+  rcases inp with _ | ⟨b, rest⟩
+  · simp [strChars] at h
+  · simp only [strChars] at h
+    split at h
+    · cases h
+    · rename_i hn
+      simp only [Res.ok.injEq, Prod.mk.injEq] at h
+      rw [← h.1, ← h.2.2]
+      simp only [List.length_take, List.length_drop]
+      omega
+
+theorem strDigitsC_cost : ∀ (inp : Bytes) (n pos : Nat),
+    (strDigitsC inp n pos).2 ≤ inp.length + 1 ∧
+    ∀ v c r, (strDigitsC inp n pos).1 = .ok (v, c, r) →
+      (strDigitsC inp n pos).2 + r.length ≤ inp.length ∧ v.length + 1 ≤ (strDigitsC inp n pos).2 := by
+  intro inp
+  induction inp with
+  | nil => intro n pos; simp [strDigitsC]
+  | cons b rest ih =>
+    intro n pos
+    simp only [strDigitsC]
+    split
+    · split
+      · simp
+      · split
+        · simp
+        · have h := ih (n * 10 + digitVal b) (pos + 1)
+          refine ⟨by simp only [List.length_cons]; omega, ?_⟩
+          intro v c r hr
+          have := h.2 v c r hr
+          simp only [List.length_cons]; omega
+    · split
+      · rcases hs : strChars n rest (pos + 1) with ⟨v, c, r⟩ | _ | _
+        · have := strChars_len hs
+          refine ⟨by simp only [List.length_cons]; omega, ?_⟩
+          intro v' c' r' hr
+          simp only [Res.ok.injEq, Prod.mk.injEq] at hr
+          simp only [← hr.1, ← hr.2.2, List.length_cons]; omega
+        · simp
+        · simp
+      · simp
+
+theorem strSep_len {inp : Bytes} {pos : Nat} {v : Bytes} {c : Nat} {r : Bytes}
+    (h : strSep inp pos = .ok (v, c, r)) : r.length + 1 = inp.length ∧ v.length = 0 := by
+  rcases inp with _ | ⟨b, rest⟩
+  · simp [strSep] at h
+  · simp only [strSep] at h
+    split at h
+    · simp only [Res.ok.injEq, Prod.mk.injEq] at h
+      simp [← h.1, ← h.2.2]
+    · cases h
+
+theorem decodeStrC_cost (inp : Bytes) (pos : Nat) :
+    (decodeStrC inp pos).2 ≤ inp.length + 1 ∧
+    ∀ v c r, (decodeStrC inp pos).1 = .ok (v, c, r) →
+      (decodeStrC inp pos).2 + r.length ≤ inp.length ∧ v.length + 2 ≤ (decodeStrC inp pos).2 := by
+  rcases inp with _ | ⟨b, rest⟩
+  · simp [decodeStrC]
+  · simp only [decodeStrC]
+    split
+    · refine ⟨by simp, ?_⟩
+      intro v c r hr
+      have := strSep_len hr
+      simp only [List.length_cons]; omega
+    · split
+      · have h := strDigitsC_cost rest (digitVal b) (pos + 1)
+        refine ⟨by simp only [List.length_cons]; omega, ?_⟩
+        intro v c r hr
+        have := h.2 v c r hr
+        simp only [List.length_cons]; omega
+      · simp
+
+theorem decodeStrTokC_cost (inp : Bytes) (pos : Nat) :
+    (decodeStrTokC inp pos).2 ≤ inp.length + 1 ∧
+    ∀ k r, (decodeStrTokC inp pos).1 = .ok (k, r) →
+      (decodeStrTokC inp pos).2 + r.length ≤ inp.length ∧ k.val.length + 2 ≤ (decodeStrTokC inp pos).2 := by
+  have h := decodeStrC_cost inp pos
+  unfold decodeStrTokC
+  rcases hs : decodeStrC inp pos with ⟨res, n⟩
+  rw [hs] at h
+  rcases res with ⟨v, c, r⟩ | _ | _
+  · refine ⟨h.1, ?_⟩
+    intro k r' hr
+    simp only [Res.ok.injEq, Prod.mk.injEq] at hr
+    have := h.2 v c r rfl
+    simp only [← hr.1, ← hr.2]
+    exact this
+  · exact ⟨h.1, by intro k r hr; cases hr⟩
+  · exact ⟨h.1, by intro k r hr; cases hr⟩
+
+theorem bytesLtCost_le (a b : Bytes) : bytesLtCost a b ≤ b.length + 1 := by
+  unfold bytesLtCost; omega
+
+
+theorem decodeAllC_cost : ∀ fuel : Nat,
+    (∀ inp pos, (decodeAnyC fuel inp pos).2 ≤ 2 * inp.length + 1 ∧
+      ∀ t r, (decodeAnyC fuel inp pos).1 = .ok (t, r) →
+        (decodeAnyC fuel inp pos).2 + 1 + 2 * r.length ≤ 2 * inp.length) ∧
+    (∀ inp pos start acc, (decodeListLoopC fuel inp pos start acc).2 ≤ 2 * inp.length + 2 ∧
+      ∀ t r, (decodeListLoopC fuel inp pos start acc).1 = .ok (t, r) →
+        (decodeListLoopC fuel inp pos start acc).2 + 1 + 2 * r.length ≤ 2 * inp.length) ∧
+    (∀ inp pos start ks vs, (decodeDictLoopC fuel inp pos start ks vs).2 ≤ 2 * inp.length + 2 ∧
+      ∀ t r, (decodeDictLoopC fuel inp pos start ks vs).1 = .ok (t, r) →
+        (decodeDictLoopC fuel inp pos start ks vs).2 + 1 + 2 * r.length ≤ 2 * inp.length) := by
+  intro fuel
+  induction fuel with
+  | zero =>
+    refine ⟨?_, ?_, ?_⟩ <;> intros <;> simp [decodeAnyC, decodeListLoopC, decodeDictLoopC]
+  | succ fuel ih =>
+    obtain ⟨ihA, ihL, ihD⟩ := ih
+    refine ⟨?_, ?_, ?_⟩
+    · intro inp pos
+      rcases inp with _ | ⟨b, rest⟩
+      · simp [decodeAnyC]
+      · simp only [decodeAnyC]
+        split
+        · have h := decodeStrTokC_cost (b :: rest) pos
+          rcases hs : decodeStrTokC (b :: rest) pos with ⟨res, n⟩
+          rw [hs] at h
+          simp only [List.length_cons] at h ⊢
+          rcases res with ⟨k, r⟩ | _ | _
+          · refine ⟨by simp only []; omega, ?_⟩
+            intro t r' hr
+            simp only [Res.ok.injEq, Prod.mk.injEq] at hr
+            have := h.2 k r rfl
+            simp only [← hr.2]; omega
+          · exact ⟨by simp only []; omega, by intro t r hr; cases hr⟩
+          · exact ⟨by simp only []; omega, by intro t r hr; cases hr⟩
+        · split
+          · have h := decodeIntC_cost (b :: rest) pos
+            rcases hs : decodeIntC (b :: rest) pos with ⟨res, n⟩
+            rw [hs] at h
+            simp only [List.length_cons] at h ⊢
+            rcases res with ⟨v, c, r⟩ | _ | _
+            · refine ⟨by simp only []; omega, ?_⟩
+              intro t r' hr
+              simp only [Res.ok.injEq, Prod.mk.injEq] at hr
+              have := h.2 v c r rfl
+              simp only [← hr.2]; omega
+            · exact ⟨by simp only []; omega, by intro t r hr; cases hr⟩
+            · exact ⟨by simp only []; omega, by intro t r hr; cases hr⟩
+          · split
+            · have h := ihL rest (pos + 1) pos []
+              simp only [List.length_cons]
+              refine ⟨by omega, ?_⟩
+              intro t r hr
+              have := h.2 t r hr
+              omega
+            · split
+              · have h := ihD rest (pos + 1) pos [] []
+                simp only [List.length_cons]
+                refine ⟨by omega, ?_⟩
+                intro t r hr
+                have := h.2 t r hr
+                omega
+              · simp
+    · intro inp pos start acc
+      rcases inp with _ | ⟨b, rest⟩
+      · simp [decodeListLoopC]
+      · simp only [decodeListLoopC]
+        split
+        · have h := ihA (b :: rest) pos
+          rcases hs : decodeAnyC fuel (b :: rest) pos with ⟨res, n⟩
+          rw [hs] at h
+          simp only [List.length_cons] at h ⊢
+          rcases res with ⟨t, r⟩ | _ | _
+          · have h2 := h.2 t r rfl
+            have hq := ihL r t.cont start (t :: acc)
+            simp only []
+            refine ⟨by omega, ?_⟩
+            intro t' r' hr
+            have := hq.2 t' r' hr
+            omega
+          · exact ⟨by simp only []; omega, by intro t r hr; cases hr⟩
+          · exact ⟨by simp only []; omega, by intro t r hr; cases hr⟩
+        · split
+          · refine ⟨by simp, ?_⟩
+            intro t r hr
+            simp only [Res.ok.injEq, Prod.mk.injEq] at hr
+            simp only [← hr.2, List.length_cons]; omega
+          · simp
+    · intro inp pos start ks vs
+      rcases inp with _ | ⟨b, rest⟩
+      · simp [decodeDictLoopC]
+      · simp only [decodeDictLoopC]
+        split
+        · have h := decodeStrTokC_cost (b :: rest) pos
+          rcases hs : decodeStrTokC (b :: rest) pos with ⟨res, n⟩
+          rw [hs] at h
+          simp only [List.length_cons] at h ⊢
+          rcases res with ⟨k, r⟩ | _ | _
+          · have h2 := h.2 k r rfl
+            have key : ∀ (okOrder : Bool) (cmp : Nat), cmp ≤ k.val.length + 1 →
+                ∀ X : Res (Tok × Bytes) × Nat, X = (if okOrder = true then
+                  match r with
+                  | [] => ((Res.err : Res (Tok × Bytes)), n + cmp + 1)
+                  | b2 :: _ =>
+                    if isValueStart b2 = true then
+                      match decodeAnyC fuel r k.c with
+                      | (.ok (t, r2), m) =>
+                        ((decodeDictLoopC fuel r2 t.cont start (k :: ks) (t :: vs)).1,
+                          (decodeDictLoopC fuel r2 t.cont start (k :: ks) (t :: vs)).2 + n + cmp + m + 1)
+                      | (.err, m) => (.err, n + cmp + m + 1) | (.panic, m) => (.panic, n + cmp + m + 1)
+                    else (.err, n + cmp + 1)
+                else (.err, n + cmp + 1)) →
+                X.2 ≤ 2 * (rest.length + 1) + 2 ∧
+                ∀ t r', X.1 = .ok (t, r') → X.2 + 1 + 2 * r'.length ≤ 2 * (rest.length + 1) := by
+              intro okOrder cmp hcmp X hX
+              subst hX
+              cases okOrder
+              · refine ⟨?_, by intro t r hr; cases hr⟩
+                simp only [Bool.false_eq_true, if_false]; omega
+              · rw [if_pos rfl]
+                rcases r with _ | ⟨b2, r'⟩
+                · refine ⟨?_, by intro t r hr; cases hr⟩
+                  simp only []; omega
+                · simp only []
+                  split
+                  · have hv := ihA (b2 :: r') k.c
+                    rcases hs2 : decodeAnyC fuel (b2 :: r') k.c with ⟨res, m⟩
+                    rw [hs2] at hv
+                    rcases res with ⟨t, r2⟩ | _ | _
+                    · have hv2 := hv.2 t r2 rfl
+                      have hq := ihD r2 t.cont start (k :: ks) (t :: vs)
+                      simp only []
+                      refine ⟨by omega, ?_⟩
+                      intro t' r'' hr
+                      have := hq.2 t' r'' hr
+                      omega
+                    · refine ⟨?_, by intro t r hr; cases hr⟩
+                      simp only []; omega
+                    · refine ⟨?_, by intro t r hr; cases hr⟩
+                      simp only []; omega
+                  · refine ⟨?_, by intro t r hr; cases hr⟩
+                    simp only []; omega
+            refine key _ _ ?_ _ rfl
+            rcases ks with _ | ⟨last, ks'⟩
+            · simp
+            · exact bytesLtCost_le _ _
+          · exact ⟨by simp only []; omega, by intro t r hr; cases hr⟩
+          · exact ⟨by simp only []; omega, by intro t r hr; cases hr⟩
+        · split
+          · refine ⟨by simp, ?_⟩
+            intro t r hr
+            simp only [Res.ok.injEq, Prod.mk.injEq] at hr
+            simp only [← hr.2, List.length_cons]; omega
+          · simp
+
+theorem decodeC_cost (inp : Bytes) : (decodeC inp).2 ≤ 2 * inp.length + 2 := by
+  have h := (decodeAllC_cost (2 * inp.length + 2)).1 inp 0
+  unfold decodeC
+  rcases hs : decodeAnyC (2 * inp.length + 2) inp 0 with ⟨res, n⟩
+  rw [hs] at h
+  rcases res with ⟨t, _ | ⟨b, r⟩⟩ | _ | _ <;> simp only [] <;> omega
 
 end TB.Cost
